@@ -18,7 +18,7 @@ def gen_frame(rng, task):
     nq = rng.randint(2, 6)
     latent = [np.array([rng.randint(-20, 20) for _ in range(n)], dtype=float) for _ in range(2)]
     for i in range(nq):
-        kind = rng.choice(["signal", "signal", "cluster", "cluster", "dup", "noise", "ties", "nan", "chain", "chain"])
+        kind = rng.choice(["signal", "signal", "cluster", "cluster", "dup", "noise", "ties", "nan", "chain", "chain", "nan_mnar"])
         base = latent[i % 2]
         noise = np.array([rng.randint(-4, 4) for _ in range(n)], dtype=float)
         if kind == "signal":
@@ -32,6 +32,15 @@ def gen_frame(rng, task):
             v = prev + np.array([rng.randint(-8, 8) for _ in range(n)], dtype=float) * (sd / rng.choice([4.0, 6.0, 8.0]))
         elif kind == "dup" and cols:
             v = np.array(cols[rng.choice(list(cols))], dtype=float) * 2.0 + 1.0
+        elif kind == "nan_mnar" and cols:
+            # a strictly monotone copy of another column whose values are missing *not at random* (mostly the large ones):
+            # on the pairwise complete rows the two are perfectly rank-correlated
+            src = np.array(cols[rng.choice(list(cols))], dtype=float)
+            v = src * 3.0 + 2.0
+            cut = np.nanmedian(src) if not np.all(np.isnan(src)) else 0.0
+            for j in range(n):
+                if not np.isnan(src[j]) and src[j] > cut and rng.random() < 0.8:
+                    v[j] = np.nan
         elif kind == "ties":
             v = np.array([float(rng.randint(0, 3)) for _ in range(n)]) + y * 0.5
         elif kind == "nan":
@@ -43,12 +52,17 @@ def gen_frame(rng, task):
         cols[f"q{i}"] = list(np.asarray(v, dtype=float))
     nc = rng.randint(0, 4)
     for i in range(nc):
-        kind = rng.choice(["signal", "dup", "noise"])
-        if kind == "signal":
+        kind = rng.choice(["signal", "dup", "noise", "dup_nan"])
+        if kind == "dup_nan" and any(k.startswith("k") for k in cols):
+            # a one-to-one recoding of another qualitative column; both get missing values on independent rows
+            name = rng.choice([k for k in cols if k.startswith("k")])
+            v = [None if (s is None or rng.random() < 0.3) else "y" + s for s in cols[name]]
+            cols[name] = [None if (s is not None and rng.random() < 0.3) else s for s in cols[name]]
+        elif kind == "signal":
             v = [f"c{int(t) % 3 if rng.random() < 0.8 else rng.randrange(3)}" for t in (y if task != "regression" else (y // 7))]
         elif kind == "dup" and any(k.startswith("k") for k in cols):
             src = cols[rng.choice([k for k in cols if k.startswith("k")])]
-            v = ["z" + s for s in src]
+            v = [None if s is None else "z" + s for s in src]
         else:
             v = [rng.choice(["u", "v", "w", "x"]) for _ in range(n)]
         cols[f"k{i}"] = v
@@ -152,7 +166,13 @@ def kruskal_h(groups):
     return (12 / (n * (n + 1)) * h - 3 * (n + 1)) / tie
 
 
+def _missing(v):
+    return v is None or (isinstance(v, float) and math.isnan(v))
+
+
 def chi2_stat(x, y):
+    keep = [i for i in range(len(x)) if not _missing(x[i]) and not _missing(y[i])]      # pairwise complete rows
+    x, y = [x[i] for i in keep], [y[i] for i in keep]
     xs, ys = sorted(set(x), key=str), sorted(set(y), key=str)
     tab = np.zeros((len(xs), len(ys)))
     for a, b in zip(x, y):
@@ -167,12 +187,12 @@ def chi2_stat(x, y):
 
 def measure(name, x, y):
     """independent value of a measure of association between feature x and target y (lists); NaN rows of x are dropped"""
-    keep = [i for i, v in enumerate(x) if not (isinstance(v, float) and math.isnan(v))]
+    keep = [i for i, v in enumerate(x) if not _missing(v)]
     xv, yv = [x[i] for i in keep], [y[i] for i in keep]
     if name == "kruskal_measure":          # quantitative x, classes of y
         return kruskal_h([[a for a, b in zip(xv, yv) if b == c] for c in dict.fromkeys(y)])
     if name == "kruskal_measure_rev":      # qualitative x, continuous y
-        return kruskal_h([[b for a, b in zip(x, y) if a == c] for c in dict.fromkeys(x)])
+        return kruskal_h([[b for a, b in zip(xv, yv) if a == c] for c in dict.fromkeys(xv)])
     if name in ("tschuprowt_measure", "cramerv_measure"):
         chi2, r, c, n = chi2_stat(x, y)
         if name == "cramerv_measure":
